@@ -62,6 +62,8 @@ def cases(rng, tier):
                     'Dmax': rng.choice([1, 2, 3, 4]), 'scale': rng.choice([1.0, 2.5, 0.3]),
                     'prep': rng.choice(['none', 'none', 'none', 'left']), 'between': rng.choice(['none', 'none', 'left']),
                     'sdtype': 'real' if rng.random() < 0.35 else 'complex'})
+        if rng.random() < 0.1:
+            out[-1]['hmag'] = rng.choice([-24, -27, -30, -30])
         if rng.random() < 0.07:
             out[-1]['steps'] = 0        # 'any number of steps': zero steps still normalise the state and return its norm
     SR.mark_replay(out, {'quick': 24, 'thorough': 120, 'search': 0}[tier], 'steps')
@@ -76,6 +78,9 @@ def impl(case):
     rs = np.random.default_rng(case['seed'])
     H = T.hamiltonian(case['model'], case['L'], rs)
     L = H.nsites
+    if case.get('hmag'):
+        # magnitude regime: Hamiltonian times 2^hmag, time step divided by it (exact): the same evolution
+        H.A[0] = H.A[0] * 2.0 ** case['hmag']
     psi = T.state(H, rs, Dmax=case['Dmax'], dtype=case.get('sdtype', 'complex'))
     psi.A[0] = psi.A[0] * case['scale']
     if case.get('prep') == 'left' and float(np.linalg.norm(G.mps_dense(psi.A))) > 1e-10:
@@ -89,7 +94,7 @@ def impl(case):
     hdig = hashlib.sha1(b''.join(np.ascontiguousarray(a).tobytes() for a in H.A) + b''.join(np.ascontiguousarray(q).tobytes() for q in H.qD) + np.ascontiguousarray(H.qd).tobytes()).hexdigest()
     dims0 = [int(x) for x in psi.bond_dims]
     qt = (psi.qD[0].copy(), psi.qD[-1].copy())
-    dt = 1j * case['dt']
+    dt = 1j * case['dt'] / (2.0 ** case['hmag'] if case.get('hmag') else 1.0)
     rets, norms, energies, dims = [], [], [], []
     maxdim_seen = list(dims0)
     numeric = SR.numeric_ok(case, H, psi)
@@ -127,12 +132,12 @@ def prop(case, r):
     if 'error' in r:
         return ['TDVP raised %s: %s' % (r['error'], r.get('detail', ''))]
     msgs = []
-    tol = 1e-9 * (1 + r['hscale']) * max(case['steps'], 1) * case['repeat'] * 10
+    tol = 1e-9 * (r['hscale'] if case.get('hmag') else 1 + r['hscale']) * max(case['steps'], 1) * case['repeat'] * 10      # relative to the energy scale in the magnitude regimes
     exp_ret = [r['norm0']] + [1.0] * (len(r['rets']) - 1)
     for k, (ret, nr, en) in enumerate(zip(r['rets'], r['norms'], r['energies'])):
         if abs(ret - exp_ret[k]) > 1e-9 * (1 + exp_ret[k]):
             msgs.append('call %d returned %.12g, expected the norm of its input state %.12g' % (k, ret, exp_ret[k]))
-        if abs(nr - 1) > tol:
+        if abs(nr - 1) > (1e-9 * max(case['steps'], 1) * case['repeat'] * 10 if case.get('hmag') else tol):
             msgs.append('norm after call %d is %.12g (drift %.3g)' % (k, nr, abs(nr - 1)))
         if abs(en - r['e0']) > tol:
             msgs.append('energy after call %d is %.12g, initial %.12g (drift %.3g)' % (k, en, r['e0'], abs(en - r['e0'])))
